@@ -546,6 +546,88 @@ def fault_history(ctx):
     ctx.cov.update(fault_history_files=[f for f, _ in files], fault_history_mutations=len(jobs))
 
 
+def same_arguments_worker(chunk, seed, tier):
+    """One argument object handed to several calls in a row: every call must produce what it produces for a freshly
+    built equal object (the earlier calls are history, the object is the argument)."""
+    import hashlib
+
+    from iodata import dump_one
+    from mc.core import Part, make_scratch
+    from props import roundtrip, wfn
+
+    part = Part(seed, tier)
+    tmp = make_scratch()
+
+    def build(kind, name, variant):
+        if kind == "spec":
+            spec = roundtrip.all_specs()[name]
+            case = {n: m[0] for n, m in spec.space}
+            obj, dkw, _ = spec.build(case, 0)
+            return obj, spec.fname, spec.fmt, dkw
+        case = {n: m[0] for n, m in wfn.SPACE}
+        case.update(variant)
+        obj, _ = wfn.build(case, name, 0)
+        return obj, wfn.TARGETS[name], None, {}
+
+    def write(obj, fname, fmt, dkw, tag):
+        path = str(tmp / f"{tag}_{fname}")
+        with warnings.catch_warnings():
+            warnings.simplefilter("ignore")
+            try:
+                dump_one(obj, path, fmt=fmt, allow_changes=True, **dkw)
+            except Exception as exc:  # noqa: BLE001
+                return ("exc", type(exc).__name__)
+        with open(path, "rb") as fh:
+            return ("ok", hashlib.blake2b(fh.read(), digest_size=12).hexdigest())
+
+    try:
+        for kind, name, variant, other in chunk:
+            part.count()
+            info = {"call": f"dump_one:{name}", "variant": variant, "call_in_between": other and f"dump_one:{other[1]}"}
+            part.nontrivial(repr(info))
+            try:
+                obj, fname, fmt, dkw = build(kind, name, variant)
+                fresh = write(build(kind, name, variant)[0], fname, fmt, dkw, "fresh")
+            except wfn.Infeasible:
+                part.outcome("same-arguments", "infeasible")
+                continue
+            results = [write(obj, fname, fmt, dkw, "a")]
+            if other is not None:
+                o2 = build(*other[:3])
+                write(obj, o2[1], o2[2], o2[3], "between")
+            results.append(write(obj, fname, fmt, dkw, "b"))
+            results.append(write(obj, fname, fmt, dkw, "c"))
+            same = all(r == fresh for r in results)
+            part.outcome("same-arguments", "identical:" + fresh[0] if same else "DEPENDS-ON-HISTORY")
+            if not same:
+                part.violation("sequence", f"same-argument-object:{name}:result-changes-with-repetition", info,
+                               f"dump_one:{name} {variant}: fresh object {fresh}; the same object written 3 times{' with ' + other[1] + ' in between' if other else ''}: {results}")
+    finally:
+        shutil.rmtree(tmp, ignore_errors=True)
+    return part.result()
+
+
+def same_arguments(ctx):
+    from mc.pool import pmap
+    from props import roundtrip, wfn
+
+    jobs = [("spec", name, {}, None) for name in roundtrip.all_specs()]
+    orders = ("interleaved", "reversed") if not ctx.thorough else dict(wfn.SPACE)["shell_order"]
+    convs = ("own", "horton2", "scr1") if not ctx.thorough else dict(wfn.SPACE)["conventions"]
+    cons = ("segmented", "gen-pd") if not ctx.thorough else dict(wfn.SPACE)["contraction"]
+    for target in wfn.TARGETS:
+        for so in orders:
+            for cv in convs:
+                for cn in cons:
+                    v = dict(shell_order=so, conventions=cv, contraction=cn, shellset="+d-cart")
+                    jobs.append(("wf", target, v, None))
+                    for t2 in wfn.TARGETS:
+                        if t2 != target and (ctx.thorough or cn == "segmented"):
+                            jobs.append(("wf", target, v, ("wf", t2, v)))
+    pmap(ctx, same_arguments_worker, jobs, chunk=8)
+    ctx.cov.update(same_argument_cases=len(jobs))
+
+
 PROBE_FILES = [("h2o_sto3g.fchk", None), ("water_sto3g_hf.wfx", None), ("h2o_sto3g.wfn", None), ("water.mol2", None)]
 
 
@@ -813,6 +895,7 @@ def run(ctx):
     interleaved_iterators(ctx)
     fault_history(ctx)
     failed_load_history(ctx)
+    same_arguments(ctx)
     thread_schedules(ctx)
     dense_thread_pass(ctx)
     ctx.evaluations += 0
@@ -831,7 +914,9 @@ def run(ctx):
         "in a fresh child process as in a child that loaded the intact file first. "
         "failed-load history: for every damaged sibling F (token -> text / +1 / 0, every line deleted / duplicated / swapped; quick ~120 per file) of 4 (thorough: 8) wavefunction files, a child process loads F "
         "and then a fixed menu of damaged probe files that only late consistency checks can reject (a row missing from every table, every counter decremented; FCHK, WFX, WFN, MOL2); every probe outcome must equal "
-        "its outcome in a child without F."
+        "its outcome in a child without F. "
+        "same argument object: every writer's default object, and generated wavefunctions (shell order x conventions x contraction) per wavefunction format, written three times in a row "
+        "(also with a dump to each other wavefunction format in between); every file must equal the file of a freshly built equal object."
     )
     ctx.assumptions += ["thread exploration: scheduling points only where process-global state is touched (API wrapper, catch_warnings); module tables are shown read-only by the sequential part",
                         "results are compared through deep bit-exact snapshots / file digests"]
